@@ -1,6 +1,7 @@
 package checks
 
 import (
+	"encoding/base64"
 	"encoding/json"
 	"fmt"
 	"io"
@@ -598,7 +599,7 @@ func judgeCookie(w *core.W, c *cookieCase) {
 }
 
 func runC18(r *core.Run) {
-	r.Rule("(a) every accessor (Query, QueryTrim, QueryStrings, QueryUnescape, QueryBool, QueryInt, QueryInt64, QueryFloat64 each with and without default; Param, ParamInt, ParamInt64, Params) reads a request whose query string is built from hostile values (absent, key only, empty, several values, raw or escaped: 20-digit numbers, 0x10, 1_0, nan, inf, 1e999, padded, separators + % ; = &, malformed escapes, non-UTF-8, NUL, full-width digits) or arbitrary bytes, and whose bind parameter is a hostile segment. Oracle: the statement's rule written with strconv / net/url on the oracle side. (b) cookie round trip SetCookie -> Set-Cookie header -> client Cookie header -> Cookie(name) for all 256 single bytes, all two-byte combinations of a separator alphabet and random byte strings. non-trivial = distinct (value class, query string, segment) and distinct cookie values")
+	r.Rule("(a) every accessor (Query, QueryTrim, QueryStrings, QueryUnescape, QueryBool, QueryInt, QueryInt64, QueryFloat64 each with and without default; Param, ParamInt, ParamInt64, Params) reads a request whose query string is built from hostile values (absent, key only, empty, several values, raw or escaped: 20-digit numbers, 0x10, 1_0, nan, inf, 1e999, padded, separators + % ; = &, malformed escapes, non-UTF-8, NUL, full-width digits) or arbitrary bytes, and whose bind parameter is a hostile segment. Oracle: the statement's rule written with strconv / net/url on the oracle side. (b) cookie round trip SetCookie -> Set-Cookie header -> client Cookie header -> Cookie(name) for all 256 single bytes, all two-byte combinations of a separator alphabet and random byte strings, a fifth of which are sent in an already encoded form (query-escaped once or twice, path-escaped, lower-cased escapes, every byte escaped, base64, Go-quoted) - a value like any other. non-trivial = distinct (value class, query string, segment) and distinct cookie values")
 	r.Assume("`present` is what net/url parses out of the raw query; a QueryStrings key that is present returns its list even if the only value is empty (pinned by the suite)")
 	c18Canaries(r)
 	r.Parallel("acc", r.N(150000, 10000000), func(w *core.W, rng *rand.Rand, i int) {
@@ -649,9 +650,41 @@ func runC18(r *core.Run) {
 				c.Sib = append(c.Sib, []string{c.Name + "_id", c.Name + "2", c.Name[:1], c.Name + c.Name, "x" + c.Name, c.Name + "-"}[rng.Intn(6)])
 			}
 		}
+		enc := ""
+		if rng.Intn(5) == 0 {
+			// a value that is already the encoded image of another string (a stored redirect target, a token copied over
+			// from another cookie, a quoted or base64 text): a value like any other, read back byte for byte
+			v := string(b)
+			switch rng.Intn(7) {
+			case 0:
+				v, enc = url.QueryEscape(v), "query-escaped"
+			case 1:
+				v, enc = url.PathEscape(v), "path-escaped"
+			case 2:
+				v, enc = url.QueryEscape(url.QueryEscape(v)), "query-escaped-twice"
+			case 3:
+				v, enc = base64.StdEncoding.EncodeToString(b), "base64"
+			case 4:
+				v, enc = strconv.Quote(v), "go-quoted"
+			case 5:
+				v, enc = strings.ToLower(url.QueryEscape(v)), "query-escaped-lower-case"
+			default:
+				var sb strings.Builder
+				for _, x := range b {
+					fmt.Fprintf(&sb, "%%%02X", x)
+				}
+				v, enc = sb.String(), "every-byte-escaped"
+			}
+			c.Value = core.B(v)
+		}
 		w.Begin("cookie", c)
+		if enc != "" {
+			w.Count("cookie-value-already-encoded")
+			w.Count("cookie-value-already-encoded:" + enc)
+		}
 		judgeCookie(w, c)
 	})
+	r.GateCounter("cookie-value-already-encoded", 1000)
 	for _, k := range []string{"class:absent", "class:empty", "class:well-formed-int", "class:well-formed-float", "class:well-formed-bool", "class:malformed", "class:out-of-range", "class:needs-escaping", "multi-valued", "form-body-parsed-before-reading", "cookie-class:empty", "cookie-class:plain", "cookie-class:separators", "cookie-class:non-ascii-or-control", "cookie-with-related-names", "requests-carrying-path-values-of-an-enclosing-mux", "cookie-absent-reads-of-related-names", "cookie-line-with-malformed-neighbours", "cookie-with-odd-attributes", "body-read:unknown", "body-read:exact", "body-read:none"} {
 		r.GateCounter(k, 20)
 	}
